@@ -124,7 +124,11 @@ func checkC18(c *Ctx, r *Report) {
 		oH := single(outsH)
 		outsT, dT := outcome(spec.Terminator)
 		oT := single(outsT)
-		okH := oH != nil && oH.Result == "help" && setsOnly(oH, map[string]string{"help": "func"})
+		helpWant := "func"
+		if c.helpIsBool(pa) {
+			helpWant = "true" // the flag form: main prints the usage itself (checked under exit-codes)
+		}
+		okH := oH != nil && oH.Result == "help" && setsOnly(oH, map[string]string{"help": helpWant})
 		okT := oT != nil && oT.Result == "stop" && len(oT.Sets) == 0
 		r.check(okH && okT, "flags", "help+terminator", "-h and -- handled", fmt.Sprintf("parseArgs must handle -h (%s) and -- (%s)", dH, dT), c.pos(pa.Pos()))
 		r.check(oT != nil && oT.RestTail && !oT.RestWord, "flags", "terminator-appends", "the words after '--' are appended to the file words seen before it", "the '--' case must append the remaining arguments to the file words collected so far (rest = append(rest, args[1:]...)); assigning them drops a FILE given before '--': "+dT, c.pos(pa.Pos()))
@@ -295,21 +299,39 @@ func checkC18(c *Ctx, r *Report) {
 			}
 			return false
 		}
+		// help kept as a function handed back to main, or as a flag main answers by printing the usage itself
+		helpOff, helpOn := tagV("nil", nil), tagV("helpfn", nil)
+		helpBool := c.helpIsBool(pa)
+		if helpBool {
+			helpOff, helpOn = constV(constant.MakeBool(false)), constV(constant.MakeBool(true))
+		}
 		// usage error: the error on standard error, exit 2, run not called
-		d1, o1 := scen(map[string]Value{funcNameOfDeclQ(c, pa): paErr, funcNameOfDeclQ(c, run): tagV("nil", nil)}, tagV("nil", nil))
+		d1, o1 := scen(map[string]Value{funcNameOfDeclQ(c, pa): paErr, funcNameOfDeclQ(c, run): tagV("nil", nil)}, helpOff)
 		ok1 := len(o1) == 1 && o1[0].Result == fmt.Sprintf("exit(%d)", spec.ExitUsage) && has(o1[0], "print:Stderr errv(usage)") && !has(o1[0], "call:"+funcNameOfDeclQ(c, run))
 		r.check(ok1, "exit-codes", "usage", "the usage error on standard error, exit 2", fmt.Sprintf("when parseArgs fails main does [%s]; documented: the error on standard error and exit status %d", d1, spec.ExitUsage), c.pos(mainFn.Pos()))
 		// run error
-		d2, o2 := scen(map[string]Value{funcNameOfDeclQ(c, pa): paOK, funcNameOfDeclQ(c, run): tagV("errv", "run")}, tagV("nil", nil))
+		d2, o2 := scen(map[string]Value{funcNameOfDeclQ(c, pa): paOK, funcNameOfDeclQ(c, run): tagV("errv", "run")}, helpOff)
 		ok2 := len(o2) == 1 && o2[0].Result == fmt.Sprintf("exit(%d)", spec.ExitRun) && has(o2[0], "print:Stderr errv(run)")
 		r.check(ok2, "exit-codes", "run", "the run error on standard error, exit 1", fmt.Sprintf("when run fails main does [%s]; documented: the error on standard error and exit status %d", d2, spec.ExitRun), c.pos(mainFn.Pos()))
 		// help
-		d3, o3 := scen(map[string]Value{funcNameOfDeclQ(c, pa): paOK, funcNameOfDeclQ(c, run): tagV("nil", nil)}, tagV("helpfn", nil))
+		d3, o3 := scen(map[string]Value{funcNameOfDeclQ(c, pa): paOK, funcNameOfDeclQ(c, run): tagV("nil", nil)}, helpOn)
 		// main returning normally is exit status 0
 		helpExit := func(res string) bool {
 			return res == fmt.Sprintf("exit(%d)", spec.ExitHelp) || (spec.ExitHelp == 0 && res == "?")
 		}
-		ok3 := len(o3) == 1 && helpExit(o3[0].Result) && has(o3[0], "call:field:help") && !has(o3[0], "call:"+funcNameOfDeclQ(c, run)) && !has(o3[0], "print:Stderr")
+		helpShown := len(o3) == 1 && has(o3[0], "call:field:help")
+		if helpBool {
+			u, okU := pkgConstString(c.Cmd, "usage")
+			helpShown = false
+			if okU && len(o3) == 1 {
+				for _, e := range o3[0].Events {
+					if strings.HasPrefix(e, "print:Stdout") && strings.Contains(e, constant.MakeString(u).String()) {
+						helpShown = true
+					}
+				}
+			}
+		}
+		ok3 := len(o3) == 1 && helpExit(o3[0].Result) && helpShown && !has(o3[0], "call:"+funcNameOfDeclQ(c, run)) && !has(o3[0], "print:Stderr")
 		r.check(ok3, "exit-codes", "help", "help printed, exit 0, nothing run", fmt.Sprintf("with -h main does [%s]; documented: the help function called, exit status %d, the program not run", d3, spec.ExitHelp), c.pos(mainFn.Pos()))
 	}
 	okDie := len(die.Body.List) == 2
@@ -602,4 +624,27 @@ func ruleDerivedDumpName(c *Ctx, r *Report, rule string) {
 			return true
 		})
 	}
+}
+
+// helpIsBool reports whether the help field of the struct parseArgs returns is a bool
+// (main then prints the usage itself) rather than a function handed back to main.
+func (c *Ctx) helpIsBool(pa *ast.FuncDecl) bool {
+	if pa.Type.Results == nil || len(pa.Type.Results.List) == 0 {
+		return false
+	}
+	t := c.typeOf(pa.Type.Results.List[0].Type)
+	if t == nil {
+		return false
+	}
+	st, ok := t.Underlying().(*types.Struct)
+	if !ok {
+		return false
+	}
+	for i := 0; i < st.NumFields(); i++ {
+		if f := st.Field(i); f.Name() == "help" {
+			b, ok := f.Type().Underlying().(*types.Basic)
+			return ok && b.Kind() == types.Bool
+		}
+	}
+	return false
 }
